@@ -1,5 +1,5 @@
 PROP = {"engines": [("rbuf", "default")],
         "level_text": "Theorems C19_run_refines/C19_step_refines (Coq): every enqueue/dequeue history on a ring buffer of any capacity >= 1 refines the bounded FIFO "
-                      "(statuses, out-values, held items, size), no step faults; the enqueue branch conditions are regenerated from cc_ring_buffer.c on every run, "
+                      "(statuses, out-values, held items, size), no step faults; the enqueue branch conditions are re-translated from cc_ring_buffer.c on every run and proved equal to the model's, "
                       "and the model is run against the compiled code on all histories of length <= 9 (13 thorough) for capacities 1-4 plus random long histories.",
         "assumptions": ["capacity*8 < 2^64 (the buffer allocation size is representable)", "cc_rbuf_peek is a raw slot read and is outside the property"]}
